@@ -1,58 +1,3 @@
 #!/bin/sh
-# tools/selftest.sh <Cxx>   must-fail corpus of the thorough tier.
-# Copies /repo's working tree to a scratch directory under /tmp, applies each one-line edit of selftest/<Cxx>.tsv in
-# turn (columns: name, file, sed expression, substring of the obligation expected to fail, functions to restrict the
-# run to or '-'), runs the quick check there and requires a violation. Prints SELFTEST lines; never changes the exit
-# status of the check (an undetected edit is a weakness of the contracts, not a violation by /repo). Adds the result to
-# evidence/<Cxx>.json under coverage.selftest.
-name=$1
-prop=${name%%-*}   # selftest/C09-r2.tsv is a second corpus for the C09 check
-cd /verif || exit 0
-corpus=selftest/$name.tsv
-[ -f $corpus ] || { echo "SELFTEST $prop: no corpus"; exit 0; }
-W=/tmp/verif-selftest-$name-$$
-rm -rf $W; mkdir -p $W/repo $W/verif
-rsync -a --exclude .git /repo/ $W/repo/
-cp known_findings.json $W/verif/
-total=0; killed=0; skipped=0; weak=""
-while IFS="$(printf '\t')" read -r name file expr expect only; do
-  case "$name" in ''|'#'*) continue;; esac
-  total=$((total+1))
-  cp $W/repo/$file $W/orig.go
-  sed -i "$expr" $W/repo/$file
-  if cmp -s $W/repo/$file $W/orig.go; then
-    skipped=$((skipped+1)); echo "SELFTEST $prop $name: skipped (edit no longer applies)"
-    continue
-  fi
-  if ! (cd $W/repo && GOFLAGS=-mod=mod GOPROXY=off GOSUMDB=off GOTOOLCHAIN=local go build ./... >/dev/null 2>&1); then
-    skipped=$((skipped+1)); echo "SELFTEST $prop $name: skipped (the edited tree does not compile)"
-    cp $W/orig.go $W/repo/$file
-    continue
-  fi
-  if [ "$only" != "-" ] && [ -n "$only" ]; then export VERIF_ONLY="$only"; else unset VERIF_ONLY; fi
-  VERIF_REPO=$W/repo VERIF_DIR=$W/verif bin/govc check $prop quick > $W/log 2>&1
-  unset VERIF_ONLY
-  cp $W/orig.go $W/repo/$file
-  if grep -q "^VIOLATION" $W/log && grep "failed obligation" $W/log | grep -qF -- "$expect"; then
-    killed=$((killed+1)); echo "SELFTEST $prop $name: detected ($(grep 'failed obligation' $W/log | grep -F -- "$expect" | head -1 | sed 's/^ *failed obligation \([^ ]*\).*/\1/'))"
-  elif grep -q "^VIOLATION" $W/log; then
-    killed=$((killed+1)); echo "SELFTEST $prop $name: detected by another obligation ($(grep 'failed obligation' $W/log | head -1 | sed 's/^ *failed obligation \([^ ]*\).*/\1/')), expected $expect"
-  else
-    weak="$weak $name"; echo "SELFTEST-WEAKNESS: $prop $name is not detected (expected $expect)"
-  fi
-done < $corpus
-rm -rf $W
-echo "SELFTEST $prop: $total edits, $killed detected, $skipped skipped,$( [ -n "$weak" ] && echo " undetected:$weak" || echo " none undetected")"
-[ "$SELFTEST_EVIDENCE" = "1" ] || exit 0
-python3 - "$prop" "$total" "$killed" "$skipped" "$weak" <<'PY'
-import json,sys
-prop,total,killed,skipped,weak=sys.argv[1:6]
-p='/verif/evidence/%s.json'%prop
-try:
-    d=json.load(open(p))
-    d['coverage']['selftest']={'corpus':'selftest/%s.tsv'%prop,'edits':int(total),'detected':int(killed),'skipped':int(skipped),'undetected':weak.split()}
-    json.dump(d,open(p,'w'),indent=1)
-except Exception as e:
-    print('selftest: evidence not updated:',e)
-PY
-exit 0
+# tools/selftest.sh <Cxx>[-name]   must-fail corpus of the thorough tier (see tools/selftest.py)
+exec python3 /verif/tools/selftest.py "$@"
